@@ -220,6 +220,14 @@ LOOP:
 		child := n.children[i]
 		path := ctx.Path
 
+		// 同名的参数可能已经由 [Matcher] 写入，当前节点会覆盖该值，放弃当前节点时需要将其恢复。
+		captures := child.segment.Captures()
+		var old string
+		var had bool
+		if captures {
+			old, had = ctx.Get(child.segment.Name)
+		}
+
 		if !child.segment.Match(ctx) { // 不匹配
 			continue
 		}
@@ -229,8 +237,12 @@ LOOP:
 
 		// 不匹配子元素，则恢复原有数据
 		ctx.Path = path
-		if child.segment.Captures() { // 未写入参数的节点不能删除同名的参数，该参数可能来自于 [Matcher]。
-			ctx.Delete(child.segment.Name)
+		if captures { // 未写入参数的节点不能删除同名的参数，该参数可能来自于 [Matcher]。
+			if had {
+				ctx.Set(child.segment.Name, old)
+			} else {
+				ctx.Delete(child.segment.Name)
+			}
 		}
 	}
 
